@@ -1,5 +1,6 @@
 //! C08 — the program commitment is the specified MAST hash of the executable code.
 
+pub use vm_core::{Felt, Operation};
 use crate::common::*;
 use crate::engine::{fp_str, Ctx, Info, Out, Viol};
 use crate::gen::{generate, GenCfg};
@@ -12,7 +13,7 @@ use proptest::prelude::*;
 use serde_json::json;
 use vm_core::code_blocks::{CodeBlock, OpBatch};
 use vm_core::crypto::hash::{Rpo256, RpoDigest};
-use vm_core::{Felt, FieldElement, Operation, StarkField};
+use vm_core::{FieldElement, StarkField};
 
 /// every operation that may appear in a span, with the opcode documented in
 /// docs/src/design/stack/op_constraints.md
